@@ -194,7 +194,9 @@ def run(P, R, tier):
         R.check(not early, 'C20.d', prd, u, 'the geometry applied to the meta frame is the caller\'s geometry= argument (not re-bound before)',
                 f'`{gparam}` is re-bound (`{norm(early[0])[:80] if early else ""}`) before `{norm(u)}`: the meta frame and the bounds filter use another column than the partitions')
     R.floor('C20.d', 'meta.set_geometry(geometry) sites', len(uses), 1)
-    okmeta = any(isinstance(c.func, ast.Attribute) and c.func.attr == 'set_geometry' and norm(c.func.value) == 'meta' for c in astq.own_calls(prd))
+    def _is_meta(e):
+        return isinstance(e, ast.Name) and any(d_[0] == 'expr' and 'GeoDataFrame(' in norm(d_[1]) for d_ in astq.assignments(prd, e.id))
+    okmeta = any(isinstance(c.func, ast.Attribute) and c.func.attr == 'set_geometry' and _is_meta(c.func.value) for c in astq.own_calls(prd))
     R.check(okmeta, 'C20.d', prd, None, 'the meta frame gets the requested geometry too', 'the meta frame does not get the requested geometry', construct='meta = meta.set_geometry(geometry)', nontrivial=False)
 
     # ---------------------------------------------------------------- C20.e
